@@ -14,6 +14,7 @@ TRUSTED = [
     "the fault/cancellation sweeps and the concurrent explorer of this run (direct oracles on the real pool; the model's step relation is compared on "
     "the pool-pass level only)",
     "anyio 4 / trio semantics of locks, events, cancel scopes and shields (where a cancellation can be delivered)",
+    "Sys is tied to the real pool step by step (harness/sysconf.py): after every scheduling step of explored runs the real pool is projected onto Sys's state space and the Lean driver searches Sys.step breadth-first for a model run between consecutive observations (this run)",
 ]
 ASSUMPTIONS = ["trace call-backs do not suspend", "callers do not read a response after closing it",
                "a back end's start_tls closes the underlying stream when it fails with an exception (not when it is cancelled)"]
@@ -31,6 +32,8 @@ DESIGN_REF = "§5 C05"
 
 def run(ctx, driver):
     rec = propbase.Rec(ctx, ID)
+    import sysconf
+    sysconf.run_conformance(ctx, rec, 100, 3000)
     sweeprun.run_sweeps(ctx, rec, ID, ["C05:"])
     import concur
     concur.explore(ctx, rec, ID, {"p_fault": 0.12, "p_cancel": 0.15, "gate_close": False}, 40, 600, ["C05:"])
